@@ -90,6 +90,8 @@ class Program:
             return r.choice(["0x%X", "0x%x"]) % (k + 10)      # "0X.." is valid PHP but rejected by the scanner: see C03's literal table
         if lex == "NUMSTR_BIN":
             return "0b" + bin(k)[2:]
+        if lex == "IDENT_RES":
+            return r.choice(RESERVED_NAMES)
         if lex == "IDXKEY":
             return r.choice(["key%d", "K_%d", "x%d"]) % k
         if lex in ("HEREDOC_START", "HEREDOC_START_DQ", "NOWDOC_START"):
@@ -324,6 +326,12 @@ def fuses(x, y):
     return True
 
 
+# semi-reserved words: usable as member names (after "->" in every version; after "::" and in declarations from PHP 7 on)
+RESERVED_NAMES = ["list", "array", "function", "for", "foreach", "if", "else", "while", "echo", "print", "new", "static", "abstract", "final", "public",
+                  "private", "use", "namespace", "return", "switch", "case", "default", "try", "catch", "throw", "global", "var", "const", "isset", "unset",
+                  "empty", "include", "require", "clone", "instanceof", "as", "and", "or", "xor", "do", "break", "continue", "goto", "callable", "trait",
+                  "interface", "extends", "implements", "yield", "finally", "declare", "exit", "die", "List", "FOR", "Class_"[:-1] + "es"]
+
 HALT_PAYLOAD = b" raw\x00data <?php $zz = 1; ?>\n/* not a comment */ 'bin\r\n"
 
 # ---------------------------------------------------------------------------- trivia recipes
@@ -379,10 +387,18 @@ def generate(check, family, rootcat="top", rootmax=2, depth=3, num=2000, seed=1,
     cfg = ("SPECIFICATION GSpec\nCONSTANTS RootCat = \"%s\" RootMax = %d Depth = %d Family = \"%s\" Random = %s MaxChoices = %d\n"
            "CONSTANT Allowed <- MCAllowed\nINVARIANTS Terminates NoDeadEnd\nCHECK_DEADLOCK FALSE\n"
            % (rootcat, rootmax, depth, family, "FALSE" if exhaustive else "TRUE", maxchoices))
+    pick = None
     if exhaustive:
         r = core.tlc("MCSyntaxGen", cfg, files={"MCSyntaxGen.tla": mc}, timeout=timeout, heap="12g")
     else:
-        r = core.tlc("MCSyntaxGen", cfg, files={"MCSyntaxGen.tla": mc}, simulate={"num": num, "depth": 400}, seed_=seed, timeout=timeout)
+        # the checks that sample whole programs share one simulation per family (and TLC's cached answer): each check takes
+        # its own seeded selection of it
+        pool = 3000
+        if rootcat == "top" and rootmax == 2 and depth == 3 and not allowed and num <= pool:
+            pick, num_run, seed_run = (num, seed), pool, core.seed()
+        else:
+            num_run, seed_run = num, seed
+        r = core.tlc("MCSyntaxGen", cfg, files={"MCSyntaxGen.tla": mc}, simulate={"num": num_run, "depth": 400}, seed_=seed_run, timeout=timeout)
     check.add_tlc("SyntaxGen(family=%s,root=%s,depth=%d,%s)" % (family, rootcat, depth, "exhaustive" if exhaustive else "simulate %d" % num), r)
     table = None
     behs = []
@@ -394,4 +410,8 @@ def generate(check, family, rootcat="top", rootmax=2, depth=3, num=2000, seed=1,
     if table is None:
         raise core.InfraError("Syntax.tla did not export its table")
     behs.sort(key=lambda b: json.dumps(b["choices"]))
+    if pick:
+        import random as _r
+        _r.Random(pick[1]).shuffle(behs)
+        behs = sorted(behs[:pick[0]], key=lambda b: json.dumps(b["choices"]))
     return table, behs
